@@ -14,7 +14,7 @@ ResetTo(k) ==
   /\ obs' = [a |-> "init", arg |-> [kind |-> k, nh |-> NH, nobj |-> NObj, max |-> Max],
              exp |-> [ret |-> "ok", href |-> [h \in Handles |-> 0], copy |-> [h \in Handles |-> 0],
                       alive |-> [o \in Objs |-> 0], gone |-> <<>>, cnt |-> [o \in Objs |-> -1],
-                      shared |-> [o \in Objs |-> -1], val |-> -1, bare |-> IF k = "bare" THEN 1 ELSE -1]]
+                      shared |-> [o \in Objs |-> -1], val |-> -1, bare |-> IF k = "bare" THEN 1 ELSE -1, quiet |-> 0]]
 
 Step(ev) ==
   CASE ev.a = "init"      -> ev.arg.nh = NH /\ ev.arg.nobj = NObj /\ ev.arg.max = Max /\ ResetTo(ev.arg.kind)
@@ -32,6 +32,7 @@ Step(ev) ==
     [] ev.a = "arrcopy"   -> ArrCopy
     [] ev.a = "arrdrop"   -> ArrDrop
     [] ev.a = "clone"     -> Clone(ev.arg.h, ev.arg.g)
+    [] ev.a = "unshare"   -> Unshare(ev.arg.h, ev.arg.via)
     [] ev.a = "bareset"   -> BareSet(ev.arg.v)
     [] ev.a = "bareraise" -> BareRaise(ev.arg.api)
     [] ev.a = "barelower" -> BareLower(ev.arg.api)
@@ -45,6 +46,7 @@ Matches(ev) ==
   /\ Len(e.gone) = Len(o.gone) /\ SeqSet(e.gone) = SeqSet(o.gone)
   /\ e.cnt = o.cnt /\ e.shared = o.shared /\ e.bare = o.bare
   /\ (e.val # -1 => e.val = o.val)
+  /\ (e.quiet = 0 => o.quiet = 0)
 
 TraceInit ==
   /\ l = 1 /\ kind = "bare"
@@ -54,7 +56,7 @@ TraceInit ==
   /\ obs = [a |-> "none", arg |-> [x |-> 0],
             exp |-> [ret |-> "ok", href |-> [h \in Handles |-> 0], copy |-> [h \in Handles |-> 0],
                      alive |-> [o \in Objs |-> 0], gone |-> <<>>, cnt |-> [o \in Objs |-> -1],
-                     shared |-> [o \in Objs |-> -1], val |-> -1, bare |-> 0]]
+                     shared |-> [o \in Objs |-> -1], val |-> -1, bare |-> 0, quiet |-> 0]]
 
 TraceNext ==
   /\ l <= Len(TraceLog)
